@@ -199,6 +199,8 @@ fn junk_block(r: &mut Rng) -> Vec<u8> {
         5 => 4096,
         // around a power of two (32 .. 32768): where chunked / windowed searches have their seams
         6 | 7 => ((1usize << (5 + r.below(11))) + r.below(9)).saturating_sub(4),
+        // a length that is a literal of the crate's source (or next to one)
+        8 => crate::dict::num_below(r, 150_000).unwrap_or(7) as usize,
         _ => 1 + r.below(64),
     };
     let mut b = junk_fill(r, n);
@@ -330,7 +332,8 @@ pub fn build_medium(recs: &mut Vec<Rec>, r: &mut Rng, plan: &FaultPlan, st: &mut
                             old ^ (1 << r.below(8))
                         } else {
                             let rnd = r.u8();
-                            *r.pick(&[0x00u8, 0xff, 0x7f, 0x80, rnd])
+                            let lit = crate::dict::num_below(r, 0xff).unwrap_or(0) as u8;
+                            *r.pick(&[0x00u8, 0xff, 0x7f, 0x80, rnd, lit])
                         };
                         if new != old {
                             rec.bytes[o] = new;
@@ -343,7 +346,8 @@ pub fn build_medium(recs: &mut Vec<Rec>, r: &mut Rng, plan: &FaultPlan, st: &mut
                         let o = hdr + 2;
                         let truelen = ((rec.bytes[o] as usize) << 8) | rec.bytes[o + 1] as usize;
                         let hl = crate::model::all_headers_len(rec.bytes[hdr]);
-                        let v: usize = match r.below(12) {
+                        let v: usize = match r.below(13) {
+                            12 => crate::dict::num_below(r, 0xffff).unwrap_or(0) as usize,
                             0 => 0,
                             1 => 1,
                             2 => 2,
